@@ -343,10 +343,18 @@ def paint(ctx, p, cfg):
     # caller precondition (DESIGN C07): an existing node's label is painted only in its own frame
     ctx.assume(And([Implies(And(p.sh0.al[i], v == p.ids[i]), p.t0[i] == f) for i in range(p.N)]))
     groups = []
+    report_bg = None
     for c in stroke:
         old = seg.c[c]
         if ctx.decide(old == v):
-            continue  # an unchanged pixel is not reported by the caller
+            # an unchanged pixel is normally not reported by the caller; an eraser dragged over background may
+            # report it (value 0 over 0): still one user action - one history step, one refresh
+            if not (cfg.get("report_unchanged_background", True) and ctx.decide(v == 0)):
+                continue
+            if report_bg is None:
+                report_bg = ctx.choose(2, "report_unchanged_background") == 1
+            if not report_bg:
+                continue
         for grp in groups:
             if ctx.decide(grp[0] == old):
                 grp[1].append(c)
@@ -745,6 +753,11 @@ def _enable_harness(ctx, cfg):
     ctx.input("action", "enable_features")
     ctx.input("args", dict(key=key))
     ctx.env.update(action="enable_features", key=key)
+    if cfg.get("was_disabled"):
+        # the feature was switched off earlier and its stored values went stale under later edits (arbitrary now):
+        # switching it back on must bring every value up to date
+        tr.disable_features([key])
+    ctx.input("was_disabled", bool(cfg.get("was_disabled")))
     tr.enable_features([key])
     ctx.tag("enabled")
     S1 = Snap(p, k)
